@@ -41,6 +41,10 @@ Target(po, t, valraise, shape, D, ck, cv) ==
 Unchanged(owner, pres, posts) ==
   If(\E q \in DOMAIN pres : ~SameRep(Rep(pres[q]), Rep(posts[q])), owner)
 
+\* an index handed over as an argument comes back as it was: C06 says so for operands, C17 for every argument
+OperandsUnchanged(e) == Unchanged("C06:operand-changed", e.others, e.otherspost)
+                        \cup Unchanged("C17:argument-changed", e.others, e.otherspost)
+
 ModalOrAny(D) == IF DOMAIN D = {} THEN "any" ELSE "modal"
 
 \* ---- per-operation judgement -----------------------------------------------------------------------
@@ -76,7 +80,7 @@ AppendOp(e) ==
       D == Concat(Abs(pre), pre.shape, Abs(o), o.shape)
   IN IF e.exc THEN {"C06:raised"}
      ELSE Target("C06", Rep(e.recvpost), e.recvpost.valraise, ConcatShape(pre.shape, o.shape), D, ModalOrAny(D), 0)
-          \cup Unchanged("C06:operand-changed", e.others, e.otherspost)
+          \cup OperandsUnchanged(e)
 
 UpdateOp(e) ==
   LET pre == Rep(e.recv)
@@ -84,6 +88,7 @@ UpdateOp(e) ==
   IN IF ~AssignDisjoint(cells) THEN {"out-of-contract"}
      ELSE IF e.exc THEN {"C06:raised"}
      ELSE Target("C06", Rep(e.recvpost), e.recvpost.valraise, pre.shape, Assign(Abs(pre), cells), "any", pre.common)
+          \cup OperandsUnchanged(e)
 
 Filtered(e) ==
   LET pre == Rep(e.recv)  mask == e.args.mask
@@ -146,7 +151,7 @@ ColumnStackOp(e) ==
      ELSE Target("C06", Rep(e.ret), e.ret.valraise, <<ss[1][1], NCols(ss)>>, ColumnStack(Ds, ss),
                  IF a.hasnewcommon THEN "exact" ELSE "any", a.newcommon)
           \cup If(a.copy /\ e.shares, "C06:requested-copy-shares-storage")
-          \cup Unchanged("C06:operand-changed", e.others, e.otherspost)
+          \cup OperandsUnchanged(e)
 
 SetUpdate(e) ==
   LET pre == Rep(e.recv)  post == Rep(e.recvpost)
@@ -163,7 +168,7 @@ SetUpdate(e) ==
      ELSE WFClauses(post)
           \cup If(e.recvpost.valraise, "C07:library-validator-raised")
           \cup If(EntPairs(post) # want \/ post.shape # pre.shape \/ post.common # pre.common, "C06:content")
-          \cup Unchanged("C06:operand-changed", e.others, e.otherspost)
+          \cup OperandsUnchanged(e)
 
 Query(e) ==
   LET pre == Rep(e.recv)  D == Abs(pre)  s == pre.shape  a == e.args  r == e.ret
